@@ -366,8 +366,40 @@ func (e *Engine) stringToBytes(x Value) Value {
 		if d, ok := x.Payload.(*Doc); ok && x.Tag == "doc" {
 			return []Value{d}
 		}
+	case *Term:
+		if x.Sort.K == SStr {
+			return e.symStrBytes(x)
+		}
 	}
 	panic(engineErr("[]byte(%s) unsupported", describeValue(x)))
+}
+
+// maxSymStrBytes bounds the byte-level view of a free (SMT) string.
+const maxSymStrBytes = 4
+
+// symStrBytes gives a free SMT string a byte-level shape: its length is bounded (maxSymStrBytes; longer strings
+// are outside the claim of the run, recorded among the stubs), case-split, and the string is tied to fresh
+// symbolic bytes, so that byte-wise library code (path.Clean, strings.Index, hand-written scanners) can be
+// executed as real code on it.
+func (e *Engine) symStrBytes(t *Term) Value {
+	ts := e.ts
+	e.stubsHit[fmt.Sprintf("[]byte(free string): lengths up to %d explored, longer strings outside the claim", maxSymStrBytes)]++
+	e.assumeTerm(ts.Le(ts.StrLen(t), ts.Int(maxSymStrBytes)))
+	n := int(e.concretizeInt(ts.StrLen(t), "length of a free string viewed as bytes"))
+	out := make([]Value, n)
+	if n == 0 {
+		e.assumeTerm(ts.Eq(t, ts.StrC("")))
+		return out
+	}
+	parts := make([]*Term, n)
+	for i := 0; i < n; i++ {
+		b := e.newInput("byte", "strbyte", sortInt)
+		e.assumeTerm(ts.And(ts.Le(ts.Int(0), b), ts.Le(b, ts.Int(255))))
+		parts[i] = ts.mk(sortStr, "str.from_code", b)
+		out[i] = e.simplify(ts.Int2BV(b, 8), nil)
+	}
+	e.assumeTerm(ts.Eq(t, ts.StrConcat(parts...)))
+	return out
 }
 
 func (e *Engine) bytesToString(bs []Value) Value {
